@@ -340,7 +340,10 @@ static void sd_raw_content(const char *path, int32 sds, int k, const blist_t *bl
       if (f) fclose(f);
       n_rawcmp++;
       if (have != total * sz) hk_fail("fmt-sd-raw-content", "sds %d (%s): the reported blocks hold %ld bytes, the data set has %ld", k, nm, have, total * sz);
-      else if (memcmp(raw, filed, (size_t)have) != 0) { long at = 0; while (raw[at] == filed[at]) at++; hk_fail("fmt-sd-raw-content", "sds %d (%s): bytes at the reported locations differ from SDreaddata (converted to file order) at byte %ld of %ld", k, nm, at, have); } }
+      else if (memcmp(raw, filed, (size_t)have) != 0) { long at = 0; while (raw[at] == filed[at]) at++;
+          /* own key for coordinate variables: the scale of an old-style (DFSD) dimension lives at an offset inside the shared DFTAG_SDS element,
+             which SDgetdatainfo does not add (known finding sdgetdatainfo-oldstyle-dimscale, workloads dfsd_new / dfsd_sd) */
+          hk_fail(SDiscoordvar(sds) ? "fmt-sd-raw-content:coordvar" : "fmt-sd-raw-content", "sds %d (%s): bytes at the reported locations differ from SDreaddata (converted to file order) at byte %ld of %ld", k, nm, at, have); } }
 out:
     free(host); free(filed); free(raw);
 }
